@@ -1,4 +1,5 @@
 import Spok.Props.C01
+import Spok.Generated.Facts
 /-! # C10 — killing spok at any point never leads to a wrongly skipped task later
 
 A kill after `k` micro-steps (`crashAt = some k`) leaves whatever `disk` holds at that point; memory is lost.  The
@@ -107,6 +108,17 @@ example : c10 (runHistory natDigest World.init
 
 /-- the judge rejects a run that silently trusts a damaged cache -/
 example : c10 [.edit inpV1, .invoke false [0] [] .crashed .corrupt, .invoke false [0] [(0, .ranOk)] .done .valid] = false := by
+  decide
+
+/-- **Regenerated tie.** The calls of `SpokFile.run` that touch the cache file, the hasher and the task —
+    extracted from the AST of file/file.go on every run — come in the order the machine `step` follows:
+    the entry is cleared and *written* (`Set("")`, `Dump`) before the task's commands run (`taskToRun.Run`), and the
+    new digest is set and written only after them.  Moving a `Dump`, dropping the invalidation or recording
+    before the run breaks this obligation. -/
+theorem run_protocol_as_modelled :
+    Spok.Generated.Facts.runProtocol =
+      ["cache.Exists", "cache.Init", "cache.Load", "hash.New().Hash", "cachedState.Get", "cachedState.Set(\"\")",
+       "cachedState.Set(\"\")", "cachedState.Dump", "taskToRun.Run", "cachedState.Set(recorded)", "cachedState.Dump"] := by
   decide
 
 end Spok.Props.C10
